@@ -493,6 +493,10 @@ func (p *Parse) parseInterface() {
 		itf.Funcs = append(itf.Funcs, *fun)
 	}
 	p.expect(token.Semi) //semicolon at the end of struct.
+	if len(itf.Funcs) == 0 {
+		// the file generated for an interface imports what its functions need: without any it does not compile
+		p.parseErr("interface " + itf.Name + " has no function")
+	}
 	p.tarsFile.Module.Interface = append(p.tarsFile.Module.Interface, *itf)
 }
 
